@@ -90,23 +90,27 @@ class ImportConverter:
                     )
                 )  # type: ignore
         elif isinstance(module, ast.ImportFrom):
-            if module.level == 0:
-                new_imports = [
-                    AbsoluteImport(
-                        module_name,
-                        self._adjust_with_root_prefix(
-                            module.module,  # type: ignore
-                            absolute_import_prefix,
-                            all_internal_modules,
-                        ),
+            new_imports = []
+            for alias in module.names:
+                if module.level == 0:
+                    imported_module = self._adjust_with_root_prefix(
+                        module.module,  # type: ignore
+                        absolute_import_prefix,
+                        all_internal_modules,
                     )
-                ]
-            else:
-                new_imports = []
-                for alias in module.names:
+                    # "from foo import bar" - bar could be a submodule of foo
+                    imported_sub_module = f"{imported_module}.{alias.name}"
+                    if imported_sub_module in all_internal_modules:
+                        imported_module = imported_sub_module
+                    new_imports.append(AbsoluteImport(module_name, imported_module))
+                else:
                     new_imports.append(
                         RelativeImport(
-                            module_name, module.module, alias.name, module.level
+                            module_name,
+                            module.module,
+                            alias.name,
+                            module.level,
+                            all_internal_modules,
                         )
                     )
 
